@@ -211,7 +211,7 @@ def cases(draw: Any, prop: str, tier: str) -> dict:
     for _ in range(nops):
         live = [s for s in streams.values() if s.active]
         w = {"open": 22 if len(live) < 4 else 4, "dispatch": 38, "consume": 14 if live else 0, "leave": 8 if live else 0,
-             "aclose": 3 if live and prop == "C10" else 0, "wrong": 5 if prop == "C11" else 2,
+             "aclose": 3 if live and prop == "C10" else 0, "wrong": 5 if prop == "C11" else 2, "crowd": 1,
              "classuse": 6 if prop == "C11" else 1, "wait": 6 if prop == "C10" else 2, "burst": 8 if prop == "C10" else 0,
              "reincarnate": 5}
         kind = d.weighted(list(w.items()))
@@ -291,6 +291,10 @@ def cases(draw: Any, prop: str, tier: str) -> dict:
             dead[0] += 1
             for s in streams.values():
                 s.chans = [((-dead[0], c[1]) if c[0] == i else c) for c in s.chans]
+        elif kind == "crowd":
+            # one stream over the signals of dozens of short-lived owners (far more owners than the layout has)
+            n = d.pick([20, 65, 70, 100])
+            ops.append({"op": "crowd", "n": n, "picks": [d.int(0, n - 1) for _ in range(d.int(1, 5))]})
         elif kind == "wrong":
             ops.append({"op": "wrong", "ch": list(d.pick(chans))})
         elif kind == "classuse":
@@ -661,6 +665,29 @@ class SeqInterp:
                             break
                         bound[(ci, ca)] = sig
                     self.trace.append(["reincarnate", i, id(insts[i]) == old_id])
+                elif kind == "crowd":
+                    from asphalt.core import Signal as _Signal
+
+                    class CrowdMember:
+                        sig = _Signal(evs[0])
+
+                    owners = [CrowdMember() for _ in range(op["n"])]
+                    try:
+                        async with stream_events([o.sig for o in owners], max_queue_size=1000) as cst:
+                            for j in op["picks"]:
+                                owners[j].sig.dispatch(evs[0](j % 7))
+                            got_src = []
+                            with anyio.move_on_after(2):
+                                for _ in op["picks"]:
+                                    got_src.append((await cst.__anext__()).source)
+                    except Exception as exc:
+                        self.disc("delivery", "crowd-raised", f"a stream over the signals of {op['n']} owners raised {short_exc(exc)}")
+                        got_src = None
+                    if got_src is not None and [owners.index(x) if x in owners else None for x in got_src] != list(op["picks"]):
+                        self.both("crowd-lost", f"one stream over the same signal of {op['n']} owner instances: events dispatched on owners "
+                                  f"{op['picks']} arrived from {[owners.index(x) if x in owners else None for x in got_src]}")
+                    del owners
+                    self.trace.append(["crowd", op["n"]])
                 elif kind == "wrong":
                     ch = tuple(op["ch"])
                     e_idx = sig_evt[ch]
